@@ -96,4 +96,5 @@ def run(ctx):
         mix = pipeline.workload_mix(ctx)
         if mix["out"] is not None:
             statement(ctx, mix)
+        pipeline.each_config(ctx, lambda name, c: statement(ctx, c), with_kept_maps=False)
     return ctx.finish(search)
